@@ -404,10 +404,16 @@ def compile_stream(ctx):
         nhelp = len({o for o, _ in rs}) - 1
         ctx.count('compile-structure', key=text, nontrivial=nhelp > 0 or len(rs) > 1,
                   helpers=min(nhelp, 8), factored=any(x[0] == 'rep' and x[3] >= 50 for x in CC.subexprs(e)))
-        cases.append('(%s, %s)' % (CC.coq_expr(e), CC.coq_rules(rs)))
+        cases.append('(%s, %s)' % (CC.coq_expr(e), CC.coq_rules_text(rs)))
         meta.append((e, text, rs))
     ctx.sample({'compile': {'grammar': meta[-1][1].split('\n')[0], 'rules': len(meta[-1][2])}})
-    bad, errs = ctx.coq_bad_indices('c09compile', CC.IMPORTS_COMPILE, 'compile_check', cases, chunk=50)
+    import time, os
+    if os.environ.get('C09_DUMP'):
+        open(os.environ['C09_DUMP'], 'w').write('\n'.join(cases))
+    t_coq = time.time()
+    bad, errs = ctx.coq_bad_indices('c09compile', CC.IMPORTS_COMPILE, 'compile_check_s', cases, chunk=100)
+    ctx.note('compile-structure: %d cases, %d characters of Coq literals, vm_compute comparison %.1f s'
+             % (len(cases), sum(len(c) for c in cases), time.time() - t_coq))
     for er in errs:
         ctx.violation('correspondence:coq-eval', {'error': er}, False, er[:300])
     searched = 0
